@@ -49,6 +49,9 @@ def main():
     finally:
         sh('git checkout -- .', wt)
         sh('git reset -q --hard', wt)
+        # C09's translator regenerates lean/Generated/Tables.lean from the tree under test: put the committed
+        # (clean-tree) table back
+        sh('git checkout -- lean/Generated/Tables.lean', '/verif')
     dst = '/verif/seeded/%s_%s' % (sid, os.environ.get('SEED_IDX') or idx)
     os.makedirs(dst, exist_ok=True)
     shutil.copy(patch, dst + '/patch.diff')
